@@ -30,6 +30,8 @@ func Spec() *run.Spec {
 			"(parameter update; for parameter.Value sources through ApplyMessage, for the struct source also messages that leave fields out or are null; a quarter of the messages to parameter.Value sources are messages the source must reject: valid JSON whose beginning decodes before a wrongly typed element / field follows, a value of the wrong shape, or a cut-off message; set/replace/clear a named input, array add/remove, read of an arbitrary node); every read is followed by 10 idle re-reads. After every operation: Version() delta == executions recorded by the processors (0 or 1) for every node, " +
 			"no execution outside a read, an executed node must have a change (parameter update in its transitive inputs or SetInput on the way, its own included) since its previous execution, the value read equals a from-scratch evaluation of the mirrored graph, State() agrees with the mirror's staleness. A rejected message changes nothing in the mirror: after it ApplyMessage must have returned an error, Version() of the source is unchanged, Value() (directly and through the output) and the decoded ToMessage() equal the mirrored value (also checked after every accepted message), nothing above may execute; targeted sequence: source holds an applied value -> read above -> 1-2 rejected messages -> read -> the consumer's input is re-installed (it executes again) -> read. " +
 			"Phase lazy-inputs: the same with three more processor kinds that read only some of their wired inputs (Sel: condition picks one of two branches; First: first array entry only; Until: array entries up to the first odd value), plus targeted sequences (read while a branch is unread, change something below the unread branch, let another consumer process it, re-wire it, flip the condition, read: the value must come from the new branch); an execution is only flagged when no parameter in the node's wired transitive inputs and no wiring changed, State() must be Stale when an input the processors actually read changed. " +
+			"Directed sequence (all phases, about 1 in 20 operations): a node that has executed loses every wired input (named inputs cleared, array entries removed down to the empty array), then it and a consumer are read. " +
+			"Phase first-use: every case runs in a worker process of its own, so the processor types are new to polyform; per kind (3-9 of the kinds with named inputs) a sparse instance (some / the only named input unwired) and a full instance are built, in half of the cases the sparse instances execute first, in the other half the full ones; per open input: its source on the full instance changes, read; the input is wired on the sparse instance, read, its source changes, read; then 10-40 random operations; same checks (every case counts as non-trivial). In the batched phases the harness records per worker process which named inputs were unwired on the first instance of each kind that executed, and counts the later reads of other instances (other cases) that have such an input wired and changed. " +
 			"Non-trivial: the history re-reads a node whose cone contains a node with >= 2 dependencies at different versions (the state in which a permuted dependency order shows). Distinctness: shape / node-count bucket / source count / longest array bucket / history length bucket.",
 		Assumptions: []string{
 			"processors are pure functions of their inputs (no side effects besides the harness counter); two kinds (ChkI: negative input, ChkS: a third of all strings) return (fallback value, error): Value() must hand out that fallback (what nodes.Struct does with the result of Process()), an execution that ends in an error counts as one execution and +1 version like any other (behaviour of the unchanged tree), and State() of an up-to-date failed node may be Processed (unchanged tree) or Error",
@@ -77,6 +79,12 @@ func Spec() *run.Spec {
 				}
 				return 300
 			}, Run: func(c *run.Ctx) run.Result { return history(c, true) }, Batch: 25, CPUBudgetS: 60},
+			{Name: "first-use", Cases: func(t string) int {
+				if t == "thorough" {
+					return 400
+				}
+				return 48
+			}, Run: firstUse, Batch: 1, CPUBudgetS: 60},
 		},
 	}
 }
@@ -170,6 +178,7 @@ func history(c *run.Ctx, lazy bool) run.Result {
 	var res run.Result
 	r := c.Rng
 	h := &hist{c: c, res: &res, r: r, lazy: lazy}
+	procCases++
 
 	shape := shapes[r.Intn(len(shapes))]
 	nn := 3 + r.Intn(23)
@@ -190,7 +199,43 @@ func history(c *run.Ctx, lazy bool) run.Result {
 	h.init = m.describe()
 	c.Note(fmt.Sprintf("history shape=%s nodes=%d params=%d ops=%d lazy=%v", shape, len(m.nodes), np, nops, lazy))
 
-	// ---- build the real graph ------------------------------------------------
+	if !h.build() {
+		return res
+	}
+	res.SetAdd("shapes", shape)
+
+	// State() before anything was read: every node is stale
+	h.checkStates(true)
+
+	// ---- the history -----------------------------------------------------------
+	for op := 0; op < nops && !h.dead; op++ {
+		h.randomOp()
+	}
+
+	maxCost := 0
+	for _, cst := range m.costs() {
+		if cst > maxCost {
+			maxCost = cst
+		}
+	}
+	if int64(maxCost) > 0 {
+		res.SetAdd("dependency_paths_bucket", bucket(maxCost))
+	}
+	res.Count("histories", 1)
+	res.Nontrivial = h.mixedReads > 0
+	res.Sig = fmt.Sprintf("%s/n%s/p%d/arr%s/ops%s/lazy=%v", shape, bucket(len(m.nodes)), np, bucket(h.maxArr), bucket(nops), lazy)
+	first := h.ops
+	if len(first) > 12 {
+		first = first[:12]
+	}
+	res.Sample = map[string]any{"shape": shape, "initial_graph": clip(h.init, 700), "first_ops": strings.Join(first, "; "), "ops": nops,
+		"reads_mixed_dep_versions": h.mixedReads, "reads_array_ge10_in_cone": h.arr10Reads}
+	return res
+}
+
+// build creates the real graph of the mirrored one.
+func (h *hist) build() bool {
+	r, m, res := h.r, h.m, h.res
 	if p := run.Try(func() {
 		for k := range m.params {
 			pv := r.Intn(2) == 0 || m.params[k].t == tV || m.params[k].t == tR
@@ -227,37 +272,9 @@ func history(c *run.Ctx, lazy bool) run.Result {
 		}
 	}); p != nil {
 		h.violate("panic", p.Site, "building the graph", p.Value+"\n"+p.Stack)
-		return res
+		return false
 	}
-	res.SetAdd("shapes", shape)
-
-	// State() before anything was read: every node is stale
-	h.checkStates(true)
-
-	// ---- the history -----------------------------------------------------------
-	for op := 0; op < nops && !h.dead; op++ {
-		h.randomOp()
-	}
-
-	maxCost := 0
-	for _, cst := range m.costs() {
-		if cst > maxCost {
-			maxCost = cst
-		}
-	}
-	if int64(maxCost) > 0 {
-		res.SetAdd("dependency_paths_bucket", bucket(maxCost))
-	}
-	res.Count("histories", 1)
-	res.Nontrivial = h.mixedReads > 0
-	res.Sig = fmt.Sprintf("%s/n%s/p%d/arr%s/ops%s/lazy=%v", shape, bucket(len(m.nodes)), np, bucket(h.maxArr), bucket(nops), lazy)
-	first := h.ops
-	if len(first) > 12 {
-		first = first[:12]
-	}
-	res.Sample = map[string]any{"shape": shape, "initial_graph": clip(h.init, 700), "first_ops": strings.Join(first, "; "), "ops": nops,
-		"reads_mixed_dep_versions": h.mixedReads, "reads_array_ge10_in_cone": h.arr10Reads}
-	return res
+	return true
 }
 
 func clip(s string, n int) string {
@@ -295,6 +312,9 @@ func (h *hist) randomOp() {
 		return
 	}
 	if r.Intn(14) == 0 && h.rejectScenario() {
+		return
+	}
+	if r.Intn(20) == 0 && h.emptyScenario() {
 		return
 	}
 	if r.Intn(14) == 0 && h.failScenario() {
@@ -1049,6 +1069,7 @@ func (h *hist) read(i int) {
 			}
 		}
 	}
+	h.noteRead(clos)
 	for k := 0; k <= idleRereads && !h.dead; k++ {
 		m.clock++
 		alt := h.r.Intn(2) == 0
@@ -1152,6 +1173,9 @@ func (h *hist) step(desc string, readIdx int, idle bool, opKind string, f func()
 		if des[i] > 0 && readIdx >= 0 {
 			m.nodes[i].lastExec = m.clock
 		}
+	}
+	if readIdx >= 0 {
+		h.noteExecutions(hits(h.log))
 	}
 	// Lazy processors only: re-executions of a node whose cone holds a wired node
 	// that no processor reads get their own signature (see unreadBelow).
